@@ -26,6 +26,7 @@ def gen(rng, tier, i):
     cid = [0]
     live = []
     charmode = set()
+    oneshot_done = set()
 
     def connect_one():
         c = cid[0]; cid[0] += 1
@@ -49,6 +50,22 @@ def gen(rng, tier, i):
             for c in rng.sample(live, rng.randint(1, min(len(live), 6))):
                 n = rng.choice((1, 1, 2, 3, 5, 10, 20))
                 data = ''
+                if c in oneshot_done: continue
+                if c not in charmode and rng.random() < 0.12:
+                    # type-ahead across a one-shot get_char()/input_to(): the arming command, its answer and more commands
+                    # arrive in ONE read, so everything after the arming line was received in line mode.  The connection is
+                    # then left alone (bytes arriving while single-character mode is armed follow other rules).
+                    k = seq.get(c, 0) + 1; seq[c] = k
+                    for _ in range(rng.randint(0, 3)):
+                        data += 'c%d_%d\r\n' % (c, k); k += 1
+                    data += 'do %s 0 rec armed\r\n' % rng.choice(('getchar', 'inputto'))
+                    data += rng.choice(('y', 'yes', '', 'c%d_ans' % c)) + '\r\n'
+                    for _ in range(rng.randint(1, 4)):
+                        data += 'c%d_%d\r\n' % (c, k); k += 1
+                    seq[c] = k
+                    oneshot_done.add(c)
+                    steps.append(send(c, data, None))
+                    continue
                 if c in charmode:
                     data = ''.join(rng.choice('abcdefghijklmnop') for _ in range(rng.randint(1, 8)))
                 else:
@@ -125,7 +142,7 @@ def check(plan, res):
         for cyc, kind, text in srv: by_cycle.setdefault(cyc, []).append((kind, text))
         # walk the cycles: what is buffered (by the bytes recv() has returned so far) and what is served
         pos = 0          # offset in the stream of the first byte not yet handed to the user object
-        charm = False
+        charm = False; oneshot = None
         gotc = 0; ai = 0
         if not av: continue
         bad = False
@@ -135,6 +152,10 @@ def check(plan, res):
             exp = None
             if charm:
                 if gotc > pos: exp = ('CHAR', stream[pos:gotc].decode('latin-1'), gotc)
+            elif oneshot:
+                # armed by a one-shot get_char()/input_to(): the next buffered line, empty or not, is the answer
+                j = stream.find(b'\r\n', pos, gotc)
+                if j >= 0 and j + 2 <= gotc: exp = (oneshot, stream[pos:j].decode('latin-1'), j + 2)
             else:
                 p2 = pos
                 while True:
@@ -153,11 +174,13 @@ def check(plan, res):
                 v.append(Violation(PROP, 'starved', 'conn %d had a complete command (%r) buffered in cycle %d but was not served in that cycle' % (c, exp[1][:30], cyc), PROP + '/turns/starved')); bad = True
                 break
             kind, text = recs[0]
-            if text != exp[1] or (kind == 'CHAR') != (exp[0] == 'CHAR'):
+            if text != exp[1] or kind != exp[0]:
                 v.append(Violation(PROP, 'order', 'conn %d cycle %d: served %s %r, expected %s %r' % (c, cyc, kind, text[:30], exp[0], exp[1][:30]), PROP + '/order/not-fifo')); bad = True
                 break
             pos = exp[2]
             if exp[1] == 'do gcl': charm = True
+            m1 = re.match(r'do (getchar|inputto) 0 ', exp[1]) if exp[0] == 'PI' else None
+            oneshot = ('CHAR' if m1.group(1) == 'getchar' else 'INPUT') if m1 else None
     # command() is not limited by turns: each 'do cmd a;cmd b;cmd c' yields its three commands in the same cycle
     for c, stream in sent.items():
         want = re.findall(rb'do cmd (x\d+_\d+a);cmd (x\d+_\d+b);cmd (x\d+_\d+c)\r\n', stream)
